@@ -231,11 +231,29 @@ def run(tier, seed):
                     rep.inconclusive.append('%s: crash obligation (%s) did not reproduce on the real build' % (n, d['msg'][:70]))
         if len(rep.samples) < 8:
             rep.samples.append(dict(program=n, steps=r['steps'], feasible_paths=r['paths'], outputs_compared=r.get('checks'), decided_syntactically=r.get('checks_trivial')))
+    # ---- leaf kernel: the delay ring buffer, decided by Kani / CBMC on the compiled code for every length <= 4 and all inputs ------
+    from checks import kani_leaf
+    kres = kani_leaf.run_kani() if not os.environ.get('VERIF_ONLY') else dict(status='skipped', harnesses={}, covers=[], wall_s=0, cbmc_s=0)
+    if kres['status'] == 'failed':
+        rep.replays += 1
+        okk, kdet = kani_leaf.confirm_on_real_vm()
+        bad = sorted(h for h, v in kres['harnesses'].items() if v['verdict'] != 'SUCCESSFUL')
+        if okk:
+            rep.finding('kani:' + '+'.join(bad), dict(program='delay ring buffer (Ringbuffer::process)', msg='Kani harness fails: %s' % {h: kres['harnesses'][h]['failed_checks'] for h in bad}, replay=kdet))
+        else:
+            rep.inconclusive.append('kani: harness %s fails (%s) but no divergence was found on the real VM with ring lengths 2..5' % (bad, [kres['harnesses'][h]['failed_checks'] for h in bad]))
+    elif kres['status'] == 'error':
+        rep.machinery_errors.append('kani leaf harnesses: %s' % kres.get('reason'))
+    rep.stats['solver_s'] += kres.get('cbmc_s') or 0
+    rep.extra['kani'] = dict(status=kres['status'], harnesses=kres['harnesses'], covers=kres['covers'], wall_s=kres['wall_s'], cbmc_s=kres.get('cbmc_s'),
+                             bounds='ring length 1..=4, 6 consecutive calls, all u64 input / time / cursor / content words; unwind 8 with unwinding assertions',
+                             functions=['runtime::vm::ringbuffer::Ringbuffer::new', 'runtime::vm::ringbuffer::Ringbuffer::process'])
     cov = dict(states=max(1, npaths), transitions=max(1, rep.stats['queries']), traces_validated_against_impl=rep.replays, programs=len(rep.programs), outputs_compared=nchecks,
                bounds='%d corpus programs (operators, intrinsics, let/tuple/record destructuring, if, functions, pipes, globals, self / tuple self, mem, delay, now, samplerate, closures reading and assigning captures, higher-order functions); '
                       'BMC %d dsp steps from the initial state, all input words symbolic' % (len(names), steps))
     assumptions = ['the reference evaluator (checks/lang.py, ~400 lines) is the oracle: call-by-value, one state cell per textual call site per call path, untaken `if` arms keep their state',
                    'conditions are comparison results (truthiness of arbitrary numbers is not specified); delay times are assumed inside 1..n-1',
                    '`%` and transcendental functions are the same uninterpreted functions on both sides (IEEE fmod / libm), min/max as Rust f64::min/max',
-                   'program dimension = finite corpus; only the VM backend (C01 relates WASM to it)']
+                   'program dimension = finite corpus; only the VM backend (C01 relates WASM to it)',
+                   'Kani harnesses (cfg(kani), hook commit 73dfb2e) cover the delay kernel only; CBMC + its default SAT back end are trusted']
     return rep.finish(cov, assumptions)
